@@ -263,7 +263,7 @@ theorem recycle_inv (q : Q) (h : Inv q) (c : Chain) (hc : c ∈ q.out)
     (hz : ∀ b ∈ c.ins ++ c.outs, b.len ≠ 0) :
     ∃ q1 evs, recycle q c.head c.ins c.outs = some (q1, evs)
       ∧ InvO q1 (q.out.filter fun x => x.head != c.head) ∧ Frame q q1
-      ∧ hals evs = expectedPopHals c ∧ q1.shareCtr = q.shareCtr := by
+      ∧ hals evs = expectedPopHals c ∧ q1.shareCtr = q.shareCtr ∧ q1.freeHead = c.head := by
   obtain ⟨free, hl, hnd, hlt, hlen⟩ := h.free
   have hheads : ∀ x ∈ q.out, x.head ∈ x.descs := fun x hx => chainOk_head_mem q x (h.chains x hx)
   have hndc : (chainDescs q.out).Nodup := (List.nodup_append.mp hnd).2.1
@@ -332,7 +332,7 @@ theorem recycle_inv (q : Q) (h : Inv q) (c : Chain) (hc : c ∈ q.out)
           (by rw [hn0]; rw [hhd] at hlk; exact hlk)
           ((encOk_congr q q0 _ _ _ (fun _ _ => ⟨rfl, rfl⟩)).mpr henc)
           (by show (d :: ds).length ≤ q.numUsed; rw [hnu, hds]; omega) hzb
-      refine ⟨q1, evs1, ?_, ?_, ?_, ?_, r10⟩
+      refine ⟨q1, evs1, ?_, ?_, ?_, ?_, r10, by rw [r11]; exact hhd.symm⟩
       · unfold recycle
         simp only [hnle, if_false, hflag]
         unfold recycleDirect
@@ -396,7 +396,7 @@ theorem recycle_inv (q : Q) (h : Inv q) (c : Chain) (hc : c ∈ q.out)
       · simp [e, Ne.symm e]
     refine ⟨indirectFreed q0 c.head q.freeHead,
       .hal (.unshareTable (q.get c.head).addr (16 * (mkTable c.firstShare 0 (tagBufs c.ins c.outs)).length)) :: l,
-      ?_, ?_, ?_, ?_, rfl⟩
+      ?_, ?_, ?_, ?_, rfl, rfl⟩
     · unfold recycle
       simp only [hnle, if_false, hflag, if_true]
       unfold recycleIndirect
@@ -468,7 +468,7 @@ theorem pop_inv (q : Q) (h : Inv q) (tok : Nat) (ins outs : List Buf) (hc : PopC
     · rename_i ht
       have ht' : q.usedElem.1 % U16 = c.head := by simpa using ht
       rw [ht']
-      obtain ⟨q1, evs, e, i, f, _, _⟩ := recycle_inv q h c hcm hz
+      obtain ⟨q1, evs, e, i, f, _, _, _⟩ := recycle_inv q h c hcm hz
       rw [e]
       refine ⟨?_, by simp⟩
       obtain ⟨a1, a2, _, _, _, _, _, a8, a9, a10, a11, a12, a13, a14, _, _, _, _⟩ := finishPop_spec q1 c.head
